@@ -196,6 +196,10 @@ def r4(ctx):
     # update_frame_id only touches frame_id
     ub = prog.body("SelectState::update_frame_id")
     ws = [st for b, si, st in ub.assigns() if st.dest.proj and st.dest.proj[-1].startswith(".")]
+    # ...and only when the retransmission directly follows the SELECT (frame_id + 1 == new id): a retransmission of some OTHER request
+    # that came in between must not make the stale SELECT look "directly preceding" again (F: 15eb43b)
+    for b_, si_, st_ in field_writes(ub, "frame_id"):
+        ctx.require_guards(ub, b_.idx, [("frame_id + 1 == new_frame_id", g_rel("Eq", lambda x: mentions_field(x, "frame_id") and (mentions_const(x, 1) or mentions_call(x, r"wrapping_add$|checked_add$")), lambda x: x in (("param", "new_frame_id"),) or mentions_name(x, "new_frame_id")))], "update_frame_id:adjacent-only", "refreshing SelectState::frame_id")
     ctx.check([w.dest.proj[-1] for w in ws] == [".frame_id"], "update_frame_id-body", "fields written: %s" % [w.dest.proj[-1] for w in ws], ub.where(line=ub.line))
 
 
